@@ -41,9 +41,14 @@ def concrete(d, rnd):
         ids = ["p1", "p2", "p3"] if d["idkind"] == "str" else [11, 12, 13]
         rows = []
         for i in ids:
-            t0 = rnd.uniform(60, 75)
+            t0 = rnd.uniform(60, 75) if d["tab"] != "late" else rnd.uniform(140, 160)
             for k in range(rnd.randint(2, 4)):
                 rows.append({"ID": i, "TIME": t0 + k * 1.2345678 + (0.0000004 if k == 1 else 0.0)})
+        if d["tab"] == "unsorted_repeat":
+            # the first individual's rows out of chronological order, its first age listed twice (not adjacent)
+            first = [r for r in rows if r["ID"] == ids[0]]
+            rest = [r for r in rows if r["ID"] != ids[0]]
+            rows = [first[-1]] + first[:-1] + [dict(first[-1])] + rest
         df = pd.DataFrame(rows)
         if d["nulltime"]:
             df.loc[1, "TIME"] = np.nan
@@ -53,12 +58,16 @@ def concrete(d, rnd):
             df = df.rename(columns={"TIME": "AGE"})
         vp = {"visit_type": "dataframe", "df_visits": df}
         return feats, vp
+    dm = {"pos": 1.0, "zero": 0.0, "neg": -0.5}[d["dmean"]]
+    fu = {"pos": (4.0, 0.5), "zero": (0.0, 0.0), "long": (70.0, 2.0)}[d["fu"]]
+    if d["fu"] == "long" and dm > 0:
+        dm = 6.0
     vp = {"visit_type": "random" if d["vt"] == "random" else "weekly",
-          "patient_number": {"pos": 4, "zero": 0, "neg": -3, "str": "4", "none": None, "true": True, "float": 4.0}[d["pn"]],
+          "patient_number": {"pos": 4, "one": 1, "zero": 0, "neg": -3, "str": "4", "none": None, "true": True, "float": 4.0}[d["pn"]],
           "first_visit_mean": 0.0, "first_visit_std": 0.4 if d["std"] == "ok" else -0.4,
-          "time_follow_up_mean": 4.0, "time_follow_up_std": 0.5,
-          "distance_visit_mean": {"pos": 1.0, "zero": 0.0, "neg": -0.5}[d["dmean"]],
-          "distance_visit_std": {"pos": 0.2, "zero": 0.0}[d["dstd"]]}
+          "time_follow_up_mean": fu[0], "time_follow_up_std": fu[1],
+          "distance_visit_mean": dm,
+          "distance_visit_std": {"pos": 0.2 * max(dm, 1.0), "zero": 0.0, "large": 0.9 * max(dm, 1.0)}[d["dstd"]]}
     sp = {"absent": None, "one": 1, "tenth": 0.25, "tiny": 0.0004, "neg": -0.1, "str": "1"}[d["spacing"]]
     if sp is not None:
         vp["min_spacing_between_visits"] = sp
